@@ -376,7 +376,7 @@ class Torrent():
                 name = os.path.basename(os.path.dirname(os.getcwd()))
             elif str(basepath).endswith(os.curdir) or str(basepath).endswith(os.pardir):
                 # Name of current/parent directory (logical parent, see NOTE above)
-                name = pathlib.Path(os.path.normpath(basepath)).name
+                name = abspath(basepath).name
             else:
                 name = basepath.name
 
